@@ -685,11 +685,12 @@ def pruneDeletedSubs (db : Db) (now : Time) (minAge : Int) (max : Nat) (victims 
              wakes := [], val := victims.length }
 
 /-- `PruneDeletedTopics`: the `DELETE` fails as a whole when a message or snapshot still references
-    a victim (`NO ACTION`); `dead_letter_topic_id` references are `SET NULL` -/
+    a victim (`NO ACTION`); a topic that is still some subscription's dead-letter topic is not a
+    candidate (`dead_letter_topic_id` is `ON DELETE SET NULL`: deleting it would take the policy away) -/
 def pruneDeletedTopics (db : Db) (now : Time) (minAge : Int) (max : Nat) (victims : List Id) : Except Err (TxOut Nat) :=
   let cand : Topic → Bool := fun t =>
     (match t.deletedAt with | some d => decide (d ≤ now - minAge) | none => false) &&
-      !db.subs.any (·.topicId == t.id)
+      !db.subs.any (·.topicId == t.id) && !db.subs.any (·.dlTopicId == some t.id)
   if !limitOk db.topics db.topicById cand victims max then badObs "prune victims not allowed"
   else if db.msgs.any (fun m => victims.contains m.topicId) ||
           db.snaps.any (fun sn => victims.contains sn.topicId) then .error .fk
